@@ -30,6 +30,17 @@ struct MTimer
 
 struct Post { std::uint64_t serial; std::int64_t t; int kind; bool done; };
 
+// configuration + simulation in one heap object, so that a finished program's simulation can stay alive while
+// the next program's simulation is constructed and run (simulations may overlap in a process; each one's clock
+// must still start at zero and nothing a dying simulation does may move a live one's clock)
+struct SimBox
+{
+	sim::default_config cfg;
+	std::unique_ptr<sim::simulation> sim;
+	SimBox() { sim.reset(new sim::simulation(cfg)); }
+};
+std::unique_ptr<SimBox>& lingering() { static std::unique_ptr<SimBox> l; return l; }
+
 struct Prog
 {
 	Args const& a;
@@ -39,8 +50,9 @@ struct Prog
 	int budget;
 	std::vector<std::int64_t> deltas;
 
-	sim::default_config cfg;
-	std::unique_ptr<sim::simulation> sim;
+	std::unique_ptr<SimBox> box;
+	sim::simulation* sim = nullptr;
+	bool overlap = false; // an older simulation is still alive while this one is constructed and first run
 	std::unique_ptr<asio::io_context> ios;
 	std::vector<std::unique_ptr<asio::high_resolution_timer>> timers;
 	std::unique_ptr<Runner> runner;
@@ -487,7 +499,9 @@ struct Prog
 	void run_program()
 	{
 		std::int64_t const before = now_ns(); (void)before;
-		sim.reset(new sim::simulation(cfg));
+		overlap = bool(lingering());
+		box.reset(new SimBox());
+		sim = box->sim.get();
 		if (now_ns() != 0)
 			viol("C02", "clock-not-zero-at-construction", fmt("clock is %" PRId64 " ns right after constructing a simulation", now_ns()));
 		M().last_clock = 0;
@@ -503,6 +517,14 @@ struct Prog
 			int const handlers_before = handlers_run;
 			std::size_t nret = runner->run();
 			after_run(nret);
+			if (lingering())
+			{
+				// the previous program's (quiescent) simulation dies now, between two runs of this one
+				lingering().reset();
+				if (now_ns() != T)
+					viol("C02", "clock-changed-by-another-simulations-destruction", fmt("clock %" PRId64 " after destroying an older, idle simulation; it was %" PRId64, now_ns(), T));
+				R().count("older_simulation_destroyed_mid_program");
+			}
 			if (stopped)
 			{
 				stopped = false;
@@ -547,8 +569,11 @@ struct Prog
 		runner.reset();
 		timers.clear();
 		ios.reset();
-		sim.reset();
+		sim = nullptr;
+		// every other program leaves its (quiescent) simulation behind for the next one to overlap with
+		if (keep_alive_after) lingering() = std::move(box); else box.reset();
 	}
+	bool keep_alive_after = false;
 };
 
 struct Cfg { int ntimers; int budget; std::vector<std::int64_t> deltas; };
@@ -654,7 +679,9 @@ void run_case(Args const& a, std::uint64_t c)
 		default: cfg.deltas = {0, 1000, 1000, 2000, 3000}; break;
 	}
 	Prog p(a, rng, false, cfg.ntimers, cfg.budget, cfg.deltas);
+	p.keep_alive_after = (c % 3) == 0;
 	p.run_program();
+	if (p.overlap) R().count("programs_constructed_while_older_simulation_alive");
 	account(p);
 }
 
